@@ -5,7 +5,8 @@ import k2check
 def run(tier):
     return k2check.run("C17", tier, profile="functors",
                        k3_programs=["same-key-upsert-during-displacement", "same-key-upsert-during-displacement-hp3",
-                                    "same-key-inserters", "expand-vs-updates", "displace-vs-update"])
+                                    "same-key-inserters", "expand-vs-updates", "displace-vs-update"],
+                       tsan_modes=[2])
 
 
 def replay(path):
